@@ -195,6 +195,7 @@ def run(ctx: core.Ctx):
             if not ok:
                 ctx.violate(fam, key, what, rp)
     ctx.extra["ground_time_s"] = round(time.time() - t, 2)
+    tomo.prep_variants(ctx, "C10", False)
     ctx.trust("oracle tableau simulator, dense Pauli matrices", "M7 (rho = 2^-n sum_P Tr(rho P) P; pull-back formula)", "Q2/Q5/Q6 as in C12", "C09.partition (all 4^n Paulis occur) is re-derived here through the 4^n count")
     ctx.assume("exact statistics; floating point treated as real arithmetic", "density reconstruction for n=6 (5 in quick) not evaluated (linear map, same code path)")
     return core.finish(ctx, "proof", "real fitter executed on symbolic counts (exact linear forms) vs oracle pull-back; density map checked on a basis",
@@ -202,6 +203,8 @@ def run(ctx: core.Ctx):
 
 
 def replay(data):
+    if "variant" in data.get("input", {}):
+        return tomo.replay_prep_variant(data["input"])
     inp = data["input"]
     if "counts" in inp and "first_counts" not in inp:
         print("regenerate with ./check C10 (seeded count data):", inp)
